@@ -675,6 +675,71 @@ pub fn run(ctx: &Ctx) {
             }
         }
     });
+    // attribute slots with enumeration values: the text -> value path of the API (set_attribute_string = CharacterData::parse)
+    // and back through serialize + load; one slot per distinct (enumeration, version)
+    {
+        let mut attr_slots: Vec<(usize, usize, AttributeName, &'static CharacterDataSpec)> = vec![];
+        let mut seen: HashMap<(usize, usize), ()> = HashMap::new();
+        for vi in 0..NVER {
+            for t in crate::c01::reachable(vi) {
+                for a in &si.types[t].attrs {
+                    if a.mask & (1 << vi) == 0 || !matches!(a.spec, CharacterDataSpec::Enum { .. }) {
+                        continue;
+                    }
+                    let key = (spec_key(a.spec), vi);
+                    if seen.contains_key(&key) {
+                        continue;
+                    }
+                    seen.insert(key, ());
+                    attr_slots.push((vi, t, a.name, a.spec));
+                }
+            }
+        }
+        par_items(ctx, &attr_slots, |(vi, t, aname, spec), st| {
+            let CharacterDataSpec::Enum { items } = spec else { return };
+            let version = versions()[*vi];
+            let model = AutosarModel::new();
+            let Ok(file) = model.create_file("f.arxml", version) else { return };
+            let mut counter = 0;
+            let Some(elem) = api_witness(&model, *vi, *t, &mut counter) else {
+                st.class("attr-slot-not-buildable");
+                return;
+            };
+            for (k, (item, mask)) in items.iter().enumerate() {
+                if mask & (1 << vi) == 0 || (k + t) % stride != 0 {
+                    continue;
+                }
+                st.eval();
+                st.nontrivial_constructed();
+                st.class("slot:attribute-enum");
+                let case = json!({"kind": "attr-slot", "vi": vi, "tid": t, "attribute": aname.to_string(), "item": item.to_str()});
+                if let Err(e) = elem.set_attribute_string(*aname, item.to_str()) {
+                    ctx.report(Failure::new("attr-slot:text-of-valid-item-rejected", format!("{}.set_attribute_string({}, {:?}) in {:?} fails ({e}) although the item is listed for this attribute in this version", elem.element_name(), aname, item.to_str(), version), case));
+                    continue;
+                }
+                if elem.attribute_value(*aname) != Some(CharacterData::Enum(*item)) {
+                    ctx.report(Failure::new("attr-slot:parsed-to-another-value", format!("{}.set_attribute_string({}, {:?}) stored {:?}", elem.element_name(), aname, item.to_str(), elem.attribute_value(*aname)), case));
+                    continue;
+                }
+                // through the file
+                if k % 4 == 0 {
+                    if let Ok(text) = file.serialize() {
+                        let m2 = AutosarModel::new();
+                        if m2.load_buffer(text.as_bytes(), "f.arxml", false).is_ok() {
+                            let xp = elem.xml_path();
+                            let got = m2.elements_dfs().map(|(_, e)| e).find(|e| e.xml_path() == xp && e.element_name() == elem.element_name()).and_then(|e| e.attribute_value(*aname));
+                            if got != Some(CharacterData::Enum(*item)) {
+                                ctx.report(Failure::new("attr-slot-roundtrip:enum", format!("{} {}={:?}: written and loaded back as {:?}", elem.element_name(), aname, item.to_str(), got), case));
+                            }
+                        }
+                    }
+                }
+            }
+        });
+        let mut st = Stats::new();
+        st.class_n("slot-types:attribute-enum(version x enumeration)", attr_slots.len() as u64);
+        ctx.merge(st);
+    }
     let other: Vec<(usize, usize, &'static CharacterDataSpec)> = slots.iter().filter(|s| !matches!(s.2, CharacterDataSpec::Enum { .. })).cloned().collect();
     let string_slots: Vec<(usize, usize, bool)> = other.iter().filter_map(|(vi, t, s)| if let CharacterDataSpec::String { preserve_whitespace, max_length: None } = s { Some((*vi, *t, *preserve_whitespace)) } else { None }).collect();
     let uint_slots: Vec<(usize, usize)> = other.iter().filter(|s| matches!(s.2, CharacterDataSpec::UnsignedInteger)).map(|s| (s.0, s.1)).collect();
